@@ -7,10 +7,11 @@
     [wfb] without any error ([C05_scope_leak_refuted], [C05_scope_read_refuted],
     [C05_unobserved_cycle_refuted]).  What is proved is the invariance of [EngineInv.Inv]
     (which implies [EngineWf.wfb], [C05_invariant_implies_wfb]) over CLEAN histories
-    ([EngineInv.run_clean]: every operation well-formed and clean — no memoized binds, no
-    parallel stabilization, every node an operation names is a top-level node, AddInput only
-    towards an older node —, none crashed or ran out of fuel, none rejected for a cycle or the
-    height limit):
+    ([EngineInv.run_clean]: every operation well-formed and clean — no memoized binds, every
+    node an operation names is a top-level node, AddInput only towards an older node,
+    ParallelStabilize only with plans that inject no fault into a bind function
+    ([C05_par_masked_rejection_refuted] shows why) —, none crashed or ran out of fuel, none
+    rejected for a cycle or the height limit).  Both stabilizers are covered:
     - for every clean history, binds and their rebuilds included: [C05_wf_every_boundary_partial];
     - per operation group, for ALL states satisfying the invariant:
       [C05_step_new] ... [C05_step_stabilize], [C05_step]. *)
@@ -77,6 +78,13 @@ Theorem C05_step_stabilize : forall s o s' e,
 Proof. exact Inv_step_stabilize. Qed.
 Print Assumptions C05_step_stabilize.
 
+(** ParallelStabilize, for every plan that injects no fault into a bind function *)
+Theorem C05_step_parstabilize : forall s o s' e,
+  Inv s -> op_ok s o = true -> op_clean s o = true -> is_parstabilize o = true -> step s o = Ok (s', e) ->
+  e <> Some ECycle -> e <> Some EHeightLimit -> Inv s'.
+Proof. exact Inv_step_parstabilize. Qed.
+Print Assumptions C05_step_parstabilize.
+
 Theorem C05_step : forall s o s' e,
   Inv s -> op_ok s o = true -> op_clean s o = true -> step s o = Ok (s', e) ->
   e <> Some ECycle -> e <> Some EHeightLimit -> Inv s'.
@@ -130,7 +138,15 @@ Theorem C05_unobserved_cycle_refuted : exists os s, run_unrejected (init 16) os 
 Proof. exact unobserved_cycle_refuted. Qed.
 Print Assumptions C05_unobserved_cycle_refuted.
 
+Theorem C05_par_masked_rejection_refuted : exists os s, run_unrejected (init 6) os = Some s /\ wfb s = false.
+Proof. exact par_masked_rejection_refuted. Qed.
+Print Assumptions C05_par_masked_rejection_refuted.
+
 (** non-vacuity *)
+Example C05_clean_history_both_stabilizers : exists s, run_clean (init 16) h_both = Some s /\ wfb s = true.
+Proof. exact clean_history_both_stabilizers. Qed.
+Print Assumptions C05_clean_history_both_stabilizers.
+
 Example C05_clean_history_with_binds : exists s, run_clean (init 16) h_binds = Some s /\ wfb s = true.
 Proof. exact clean_history_with_binds. Qed.
 Print Assumptions C05_clean_history_with_binds.
